@@ -298,6 +298,7 @@ def run_groups(groups, repo, prop, tier, only=None):
     try:
         d = make_scratch(repo, groups, support)
         batches = {}
+        n_playback = 0
         for h in hs:
             batches.setdefault((h.get("mode", "rel"), h.get("features", "") + ("|pkg=" + h["package"] if h.get("package") else ""), h.get("solver", "")), []).append(h)
         for (mode, features, solver), bh in sorted(batches.items()):
@@ -318,7 +319,12 @@ def run_groups(groups, repo, prop, tier, only=None):
                     rec["kind"] = st.get("kind", "")
                     rec["detail"] = st.get("detail", "")
                     rec["witness"] = {"native_output": st.get("detail", "")[:1500], "decoded_any_values": re.findall(r"WITNESS (.*)", st.get("detail", ""))[:3]}
+                elif st["status"] == "failed" and n_playback >= 3:
+                    # concrete playback re-runs the harness: only the first three failures of a run get a witness
+                    rec["kind"] = st.get("kind", "")
+                    rec["detail"] = st.get("detail", "")
                 elif st["status"] == "failed":
+                    n_playback += 1
                     test, fails = _playback(d, h, mode, features, per_timeout)
                     rec["kind"] = st.get("kind", "")
                     rec["detail"] = (fails or st.get("detail", ""))
